@@ -199,7 +199,8 @@ func codecScenario() *explore.Scenario {
 		for _, gen := range []func(interface{}) string{nil, cqrs.StructName, cqrs.NamedStruct(cqrs.FullyQualifiedStructName)} {
 			for _, m := range []cqrs.CommandEventMarshaler{cqrs.ProtoMarshaler{GenerateName: gen}, cqrs.ProtobufMarshaler{GenerateName: gen}} {
 				for _, v := range []proto.Message{wrapperspb.String(s), wrapperspb.Bytes([]byte(s)), wrapperspb.Int64(int64(len(s)) - 3),
-					structpb.NewStringValue(s), &structpb.Struct{Fields: map[string]*structpb.Value{s: structpb.NewStringValue(s), "n": structpb.NewNumberValue(1.5)}}} {
+					structpb.NewStringValue(s), &structpb.Struct{Fields: map[string]*structpb.Value{s: structpb.NewStringValue(s), "n": structpb.NewNumberValue(1.5),
+						"nested": structpb.NewStructValue(&structpb.Struct{Fields: map[string]*structpb.Value{"k": structpb.NewStringValue(s)}})}}} {
 					n++
 					msg, err := m.Marshal(v)
 					if err != nil {
@@ -213,6 +214,22 @@ func codecScenario() *explore.Scenario {
 					}
 					if m.NameFromMessage(msg) != m.Name(v) {
 						vs.Fail("name-roundtrip", "%T (%T): NameFromMessage = %q, Name = %q", m, v, m.NameFromMessage(msg), m.Name(v))
+					}
+					// the round trip does not depend on the value's history: the same object, marshalled before, then changed
+					// in a nested message (another encoded length), round-trips to its new content
+					if st, ok := v.(*structpb.Struct); ok {
+						st.Fields["n"] = structpb.NewStringValue("changed after the first Marshal: " + s + s)
+						st.Fields["nested"].GetStructValue().Fields["added"] = structpb.NewStringValue("added after the first Marshal " + s)
+						n++
+						msg2, err := m.Marshal(st)
+						if err != nil {
+							vs.Fail("proto-roundtrip", "%T Marshal of a value that was marshalled before and changed since: %v", m, err)
+							continue
+						}
+						back2 := &structpb.Struct{}
+						if err := m.Unmarshal(msg2, back2); err != nil || !proto.Equal(back2, st) {
+							vs.Fail("proto-roundtrip", "%T: a value marshalled before and changed since came back as %v, %v", m, back2, err)
+						}
 					}
 				}
 			}
